@@ -100,8 +100,18 @@ impl AnySink {
                 while q.drained() < q.submitted() && t0.elapsed() < Duration::from_secs(2) {
                     thread::yield_now();
                 }
-                // wait until the worker is back in recv (the wrapped emit returned)
-                thread::sleep(Duration::from_millis(1));
+                // wait until the worker is back in recv (the wrapped emit returned and updated its statistics): every
+                // other thread of the process asleep, seen twice in a row - not a fixed time, which fails under load
+                let t1 = Instant::now();
+                let mut calm = 0;
+                while calm < 2 && t1.elapsed() < Duration::from_millis(500) {
+                    if crate::queue::others_asleep() {
+                        calm += 1;
+                    } else {
+                        calm = 0;
+                    }
+                    thread::sleep(Duration::from_micros(150));
+                }
                 r
             }
         }
